@@ -218,6 +218,10 @@ extern void ClearSymbolList(void);
 
 extern void ResetSymbolDefines(void);
 
+#ifdef FLAMEWING_ASL_RELEASES_VERIF
+extern LargeWord VerifSymbolDigest(void);
+#endif
+
 extern void PrintSymbolDepth(void);
 
 extern void EvalResultClear(tEvalResult* pResult);
